@@ -83,10 +83,34 @@ func runC10(r *Report, tier string) {
 
 	F, tp := P.countersignBuilder()
 	r.analysed(F)
-	if len(F.Params) != 4 || tp != 1 {
+	// parameter roles by type: the type-switched parent, the countersigner's
+	// protected bytes and the external data (the two byte-string parameters,
+	// in that order), and - if present - a form selector
+	spI, extI, selI := -1, -1, -1
+	for i, prm := range F.Params {
+		switch {
+		case i == tp:
+		case shortType(prm.Type()) == "cbor.RawMessage" || isByteSlice(prm.Type()):
+			if spI < 0 {
+				spI = i
+			} else if extI < 0 {
+				extI = i
+			} else {
+				undecidedf("countersign builder has an unexpected signature: %s", F.Signature)
+			}
+		default:
+			if selI >= 0 {
+				undecidedf("countersign builder has an unexpected signature: %s", F.Signature)
+			}
+			selI = i
+		}
+	}
+	if spI < 0 || extI < 0 {
 		undecidedf("countersign builder has an unexpected signature: %s", F.Signature)
 	}
-	target := T("param", "1")
+	pS := func(i int) string { return "$" + itoa(int64(i)) }
+	target := T("param", itoa(int64(tp)))
+	spT, extT := T("param", itoa(int64(spI))), T("param", itoa(int64(extI)))
 	sb := &specBuilder{}
 	// the form selector: what the full / abbreviated key sites pass as the
 	// builder's first argument (a closed constant: a bool, or whatever else
@@ -102,7 +126,16 @@ func runC10(r *Report, tier string) {
 		if call == nil {
 			continue
 		}
-		sel := P.foldGlobals(call.Args[0])
+		// without a selector parameter the form is whatever constant the site
+		// passes as countersigner protected bytes
+		selArg := spI
+		if selI >= 0 {
+			selArg = selI
+		}
+		sel := P.foldGlobals(call.Args[selArg])
+		if selI < 0 && !closedConst(sel) {
+			continue // full form: a computed value, nothing to substitute
+		}
 		switch {
 		case !closedConst(sel):
 			selectorWhy[ab] = "the form selector passed at " + shortFn(s.fn) + " is not a constant: " + truncate(sel.String(), 120)
@@ -161,8 +194,18 @@ func runC10(r *Report, tier string) {
 			nPtr++
 			o := r.ob("R10.1", fmt.Sprintf("%s:pointer-arm:%s", shortFn(F), kind), F, p.ret, "pointer arm re-dispatches the pointee, all other arguments unchanged")
 			c := delegCall(res[1])
-			want := fmt.Sprintf("iface<%s>(*res<0>(typeassert<*%s,ok>($1)))", kind, kind)
-			okD := deleg && c != nil && c.S == shortFn(F) && len(c.Args) == 4 && c.Args[0].String() == "$0" && c.Args[1].String() == want && c.Args[2].String() == "$2" && c.Args[3].String() == "$3" && pairDelegated(res[0], res[1])
+			want := fmt.Sprintf("iface<%s>(*res<0>(typeassert<*%s,ok>(%s)))", kind, kind, pS(tp))
+			okD := deleg && c != nil && c.S == shortFn(F) && len(c.Args) == len(F.Params) && pairDelegated(res[0], res[1])
+			for i := range F.Params {
+				if !okD {
+					break
+				}
+				if i == tp {
+					okD = c.Args[i].String() == want
+				} else {
+					okD = c.Args[i].String() == pS(i)
+				}
+			}
 			o.check(okD, "F(abbreviated, *t, signProtected, external)", "pointer arm returns "+truncate(res[1].String(), 200))
 			continue
 		}
@@ -173,13 +216,18 @@ func runC10(r *Report, tier string) {
 		}
 		for _, abbreviated := range []bool{false, true} {
 			sel := selector[abbreviated]
-			if sel == nil {
+			if sel == nil && selI >= 0 {
 				continue // reported by R10.3
 			}
-			// the path under this form: the selector substituted for the
-			// builder's first parameter; paths it makes infeasible are not
-			// part of this form
-			m := map[string]*Term{"0": sel}
+			// the path under this form: the selector substituted for its
+			// parameter; paths it makes infeasible are not part of this form
+			m := map[string]*Term{}
+			switch {
+			case selI >= 0:
+				m[itoa(int64(selI))] = sel
+			case sel != nil:
+				m[itoa(int64(spI))] = sel
+			}
 			fp := *p
 			fp.conds = nil
 			for _, c := range p.conds {
@@ -205,21 +253,21 @@ func runC10(r *Report, tier string) {
 			els := []*Term{
 				pIface("string", T("const", csContext(abbreviated, arm.other))),
 				pIface("cbor.RawMessage", sb.pDet(pProt(pField(hT, "Headers")))),
-				pIface("cbor.RawMessage", sb.pDet(T("param", "2"))),
+				pIface("cbor.RawMessage", sb.pDet(spT)),
 				nil,
 				pIface("[]byte", T("var", "PAYLOAD")),
 			}
 			// nil -> empty normalisation of external: on a single path the diamond is resolved
-			extNil := Fact{tEq(T("param", "3"), tNil()), true}
+			extNil := Fact{tEq(extT, tNil()), true}
 			switch {
 			case p.has(extNil):
 				els[3] = pIface("[]byte", &Term{Op: "arr", S: "byte"})
 			case p.has(Fact{extNil.Pred, false}):
-				els[3] = pIface("[]byte", T("param", "3"))
+				els[3] = pIface("[]byte", extT)
 			default:
 				// the normalisation happens in a helper: the element is the
 				// gated value itself
-				els[3] = pIface("[]byte", pN2E(T("param", "3")))
+				els[3] = pIface("[]byte", pN2E(extT))
 			}
 			var spec *Term
 			if arm.other {
@@ -359,21 +407,21 @@ func runC10(r *Report, tier string) {
 		wantCtx := []string{csContext(!full, false), csContext(!full, true)}
 		sort.Strings(wantCtx)
 		if why == "" && strings.Join(got, ",") != strings.Join(wantCtx, ",") {
-			why = fmt.Sprintf("with the selector %s passed here the builder uses the contexts %v, expected %v", truncate(call.Args[0].String(), 80), got, wantCtx)
+			why = fmt.Sprintf("with the arguments passed here the builder uses the contexts %v, expected %v", got, wantCtx)
 		}
 		if full {
-			if _, ok := unify(pProt(pField(T("param", "0"), "Headers")), canon(call.Args[2]), bindings{}); !ok && why == "" {
-				why = "countersigner protected bytes are " + truncate(call.Args[2].String(), 160) + ", not ProtBytes(own Headers)"
+			if _, ok := unify(pProt(pField(T("param", "0"), "Headers")), canon(call.Args[spI]), bindings{}); !ok && why == "" {
+				why = "countersigner protected bytes are " + truncate(call.Args[spI].String(), 160) + ", not ProtBytes(own Headers)"
 			}
 		} else {
-			if b, ok := byteArr(call.Args[2]); (!ok || len(b) != 1 || b[0] != 0x40) && why == "" {
-				why = "abbreviated form's sign_protected is " + call.Args[2].String() + ", not the empty bstr 0x40"
+			if b, ok := byteArr(call.Args[spI]); (!ok || len(b) != 1 || b[0] != 0x40) && why == "" {
+				why = "abbreviated form's sign_protected is " + call.Args[spI].String() + ", not the empty bstr 0x40"
 			}
 		}
-		if why == "" && (call.Args[1].Op != "param" || call.Args[3].Op != "param") {
-			why = "parent/external are not the caller's parameters: " + call.Args[1].String() + ", " + call.Args[3].String()
+		if why == "" && (call.Args[tp].Op != "param" || call.Args[extI].Op != "param") {
+			why = "parent/external are not the caller's parameters: " + call.Args[tp].String() + ", " + call.Args[extI].String()
 		}
-		o.check(why == "", "builder("+call.Args[0].String()+", parent, "+truncate(call.Args[2].String(), 60)+", external)", why)
+		o.check(why == "", "builder(parent, "+truncate(call.Args[spI].String(), 60)+", external)", why)
 	}
 	r.floor("R10.3", n3, 4, "countersignature key sites")
 	// sign and verify of each form use the same builder call
@@ -390,7 +438,11 @@ func runC10(r *Report, tier string) {
 					dir = "sign"
 				}
 				// normalise parameter numbering by role
-				m[form+":"+dir] = c.Args[0].String() + "|" + canon(c.Args[2]).String()
+				k := ""
+				if selI >= 0 {
+					k = c.Args[selI].String()
+				}
+				m[form+":"+dir] = k + "|" + canon(c.Args[spI]).String()
 			}
 		}
 		for _, form := range []string{"full", "abbreviated"} {
